@@ -19,9 +19,9 @@ from engines import recplay as R
 PROP = 'C04'
 
 IN_FAULTS = ['key_unbuildable', 'handler_raises', 'copy_fails', 'unserializable_value', 'discard_in_body',
-             'force_in_body', 'discard_before', 'force_before', 'fallback_raises', 'resolver_raises']
+             'force_in_body', 'discard_before', 'force_before', 'fallback_raises', 'resolver_raises', 'disable_in_body', 'disable_before']
 OUT_FAULTS = ['handler_raises', 'discard_in_body', 'force_in_body', 'discard_before', 'force_before',
-              'unserializable_value', 'unserializable_argument']
+              'unserializable_value', 'unserializable_argument', 'disable_in_body', 'disable_in_handler', 'disable_before']
 
 META = {
     'engine': 'recplay',
@@ -80,11 +80,11 @@ def apply_fault(spec, io_steps, pos, kind_raw, run):
     kind = kinds[kind_raw % len(kinds)]
     if kind in ('resolver_raises', 'unserializable_argument'):
         return R.place_fault(spec, st, kind, run)
-    if kind in ('discard_before', 'force_before'):
+    if kind in ('discard_before', 'force_before', 'disable_before'):
         lst, n = locate(spec.body, st)
-        lst.insert(n, ['discard'] if kind == 'discard_before' else ['force'])
+        lst.insert(n, {'discard_before': ['discard'], 'force_before': ['force'], 'disable_before': ['disable']}[kind])
         return kind
-    if kind == 'handler_raises':
+    if kind in ('handler_raises', 'disable_in_handler'):
         (spec.inputs if st[0] == 'in' else spec.outputs)[st[1]].handler = True
     if kind == 'fallback_raises':
         ispec = spec.inputs[st[1]]
